@@ -53,8 +53,12 @@ func WalkFiles(ctx context.Context, path string, watchPattern *regexp.Regexp, ou
 		if err != nil {
 			return nil
 		}
-		if info.IsDir() && skipdir.ShouldSkip(absPath) {
-			return filepath.SkipDir
+		if info.IsDir() {
+			if skipdir.ShouldSkip(absPath) {
+				return filepath.SkipDir
+			}
+			// Only files are generated or watched, a directory called x.templ or x.go isn't a file to process.
+			return nil
 		}
 		if !watchPattern.MatchString(absPath) {
 			return nil
